@@ -908,3 +908,47 @@ Theorem C06_allocation_without_heap_bound_refuted :
   ~ (forall h : Z, is_blk h -> hf_outcome h = hf_end).
 Proof. exact alloc_in_region_refuted. Qed.
 Print Assumptions C06_allocation_without_heap_bound_refuted.
+
+(* ======================= the two checks on the output are theorems now =======================
+   `asm_wf cs = None` and `code_small cs = true` of C06_codegen_simulates_partial were CHECKED on the real output
+   of every run; they are PROVED now for the model's output (Props/C14.v: C14_x86_compile_asm_wf,
+   C14_x86_compile_code_small) under boolean guards on the program:
+     labels_guard p   the label texts <Type>_<k>[_<Xtor>] are unambiguous (Sem/LabelGuard.v; outside it: known
+                      finding label-collision-name-digits)
+     imm_guard p      literals are 64-bit values; a Substitute lists at most 2^31 pairs; a type declares at most
+                      2^28 xtors (Sem/WfGuard.v)
+     size_guard p     cg_bound_defs (pdefs p) <= 2^40 (the size measure of C19)
+   (calls_guard follows from lin_check_prog).  Still `_partial`-free only up to the two hypotheses discussed at
+   C06_codegen_simulates_partial that are not about the emitted code: ann_check_prog p (a theorem for every output
+   of the linearization pass: second statement) and heap_fits p args (a bound along the run). *)
+From SCC Require Import Sem.LabelGuard Sem.WfGuard Proof.X86WfAll Proof.X86WfCor.
+
+Theorem C06_codegen_simulates :
+  forall (p : prog) (lc : N) (cs : list xcode) (n : nat) (lc' : N) (args : list Z) (fuel : nat) (o : obs),
+    lin_check_prog p = true -> ann_check_prog p = true -> AxHeapTyping.entry_ext p = true ->
+    plain_names p = true -> plain_types p = true ->
+    labels_guard p = true -> imm_guard p = true -> size_guard p = true ->
+    x86_compile p lc = Ok (cs, n, lc') ->
+    List.length args = n -> heap_fits p args ->
+    run_linear fuel p args = o -> snd o <> OOutOfFuel ->
+    exists outer inner, fst (run_x86 outer inner cs args) = o.
+Proof. exact x86_codegen_simulates_wf. Qed.
+Print Assumptions C06_codegen_simulates.
+
+Theorem C06_codegen_correct_linearized :
+  forall (a : prog) (lc : N) (cs : list xcode) (n : nat) (lc' : N) (args : list Z) (fuel : nat) (o : obs),
+    prog_ok a = true ->
+    AxHeapTyping.entry_ext (linearize a) = true -> plain_names (linearize a) = true -> plain_types (linearize a) = true ->
+    labels_guard (linearize a) = true -> imm_guard (linearize a) = true -> size_guard (linearize a) = true ->
+    x86_compile (linearize a) lc = Ok (cs, n, lc') ->
+    heap_fits (linearize a) args ->
+    run_linear fuel (linearize a) args = o -> defined o = true ->
+    exists outer inner, fst (run_x86 outer inner cs args) = o.
+Proof. exact x86_codegen_correct_linearized_wf. Qed.
+Print Assumptions C06_codegen_correct_linearized.
+
+(* non-vacuity: the heap example of C06_codegen_simulates_heap_example_hypotheses passes the new guards too *)
+Theorem C06_codegen_simulates_example_guards :
+  labels_guard hx_lin = true /\ imm_guard hx_lin = true /\ size_guard hx_lin = true /\ calls_guard hx_lin = true.
+Proof. exact hx_lin_guards. Qed.
+Print Assumptions C06_codegen_simulates_example_guards.
